@@ -193,10 +193,34 @@ def operand_place(op):
     return op.get("c") or op.get("m")
 
 
-def resolve_closure(facts, blocks, op, depth=8):
+def resolve_closure(facts, blocks, op, depth=8, outer=None, new_local=None):
     """(closure body, {upvar name: captured operand}) for an operand that holds a closure value (or a
-    reference to one); (fn body id, None) for a function item; else (None, None)."""
+    reference to one); (fn body id, None) for a function item; else (None, None).
+    `outer` (the body being expanded) and `new_local` allow resolving a closure that the expanded
+    closure itself captured (`let f = |x| ..; it.filter(|y| f(y))`): it is looked up in the parent
+    body; what *it* captured is represented by stand-in locals named after its upvars."""
     for _ in range(depth):
+        pl0 = operand_place(op) if "k" not in op else None
+        if pl0 is not None and outer is not None and outer.kind == "Closure" and pl0["l"] == 1 and outer.parent:
+            p = pl0["p"]
+            i = 1 if p and p[0] == "deref" else 0
+            if i < len(p) and isinstance(p[i], dict) and str(p[i].get("f", "")).startswith("upvar:") and all(x == "deref" for x in p[i + 1:]):
+                name = p[i]["f"][6:]
+                parent = facts.body(outer.parent)
+                if parent is None:
+                    return None, None
+                for bi, j, s in parent.assigns():
+                    rv = s["rv"]
+                    if rv["k"] == "agg" and rv.get("agg") == "closure" and rv.get("path") == outer.defpath and name in (rv.get("fields") or []):
+                        cop = rv["ops"][rv["fields"].index(name)]
+                        tgt, cap = resolve_closure(facts, parent.blocks, cop, depth - 1)
+                        if tgt is None or isinstance(tgt, tuple) or new_local is None:
+                            return tgt, cap
+                        stand = {}
+                        for nm in (cap or {}):
+                            stand[nm] = {"c": {"l": new_local(nm), "p": []}}
+                        return tgt, stand
+                return None, None
         if "k" in op:
             k = op["k"]
             if isinstance(k, dict) and k.get("fn"):
@@ -239,7 +263,8 @@ class _LazyHead:
 class Sugar:
     """Expansion state shared with engine.inline.inlined()."""
 
-    def __init__(self, facts, locals_, blocks, origin, work):
+    def __init__(self, facts, locals_, blocks, origin, work, outer=None):
+        self.outer = outer
         self.facts = facts
         self.locals = locals_
         self.blocks = blocks
@@ -247,13 +272,20 @@ class Sugar:
         self.work = work            # inliner's work list: (block, depth, stack)
         self.expanded = []
 
+    def _stand_in(self, name):
+        self.locals.append({"ty": "?", "adt": None, "name": name, "user": True, "mut": False, "synthetic": True, "as_upvar": name})
+        return len(self.locals) - 1
+
+    def _resolve(self, op):
+        return resolve_closure(self.facts, self.blocks, op, outer=self.outer, new_local=self._stand_in)
+
     # -------------------------------------------------------------------------------- closure call
     def call_closure(self, B, closure_op, args, dest_place, cont, dep, stack, by_ref_args=()):
         """Returns the entry block of code that computes `dest = closure(args...)` and goes to cont.
         args: operands; the closure body is inlined when statically known, otherwise an opaque
         `FnOnce::call_once` call is emitted."""
-        target, captured = resolve_closure(self.facts, self.blocks, closure_op)
-        if target is None or (isinstance(target, tuple) and self.facts.body(target[1]) is None and True and False):
+        target, captured = self._resolve(closure_op)
+        if target is None:
             return self._opaque_call(B, closure_op, args, dest_place, cont)
         if isinstance(target, tuple):
             # function item: an ordinary call (the inliner may inline it afterwards)
@@ -503,7 +535,7 @@ class Sugar:
         is_fn_trait = re.match(r"^std::ops::(Fn|FnMut|FnOnce)::(call|call_mut|call_once)$", t.get("def") or "") is not None
         if not ((cb is not None and cb.kind == "Closure") or is_fn_trait) or len(t["args"]) != 2 or t.get("t") is None:
             return False
-        target, captured = resolve_closure(self.facts, self.blocks, t["args"][0])
+        target, captured = self._resolve(t["args"][0])
         if target is None or isinstance(target, tuple):
             return False
         # the argument tuple
